@@ -107,6 +107,7 @@ type Live struct {
 	succ  map[hotstuff.ID]map[cmdKey]map[*clientpb.Command]int64 // replica -> command -> client call -> stamp of the success reply
 	log    *vk.SignLog
 	blocks map[hotstuff.Hash]*hotstuff.Block // every proposed block seen by any replica
+	seenAt map[propKey]map[hotstuff.Hash][]hotstuff.ID // (view, proposing replica of the message) -> block hash -> receivers
 	done  atomic.Int64                        // commands completed (quorum of replies)
 	crashed atomic.Int64
 }
@@ -172,6 +173,14 @@ func (l *Live) attach(nd *node) {
 		}
 		l.mu.Lock()
 		l.blocks[ev.Block.Hash()] = ev.Block
+		if l.seenAt == nil {
+			l.seenAt = map[propKey]map[hotstuff.Hash][]hotstuff.ID{}
+		}
+		pk := propKey{ev.Block.View(), ev.ID}
+		if l.seenAt[pk] == nil {
+			l.seenAt[pk] = map[hotstuff.Hash][]hotstuff.ID{}
+		}
+		l.seenAt[pk][ev.Block.Hash()] = append(l.seenAt[pk][ev.Block.Hash()], nd.id)
 		l.mu.Unlock()
 	}, eventloop.Prioritize())
 	eventloop.Register(nd.el, func(ev hotstuff.ViewChangeEvent) {
@@ -513,6 +522,7 @@ func (l *Live) judge(capHit bool) {
 	}
 	l.judgeVotes()
 	l.judgeCertificates()
+	l.judgeProposalIdentity()
 	// equal counts => equal digests
 	type cd struct {
 		id   hotstuff.ID
@@ -646,5 +656,33 @@ func (l *Live) judgeCertificates() {
 			l.violate("C09", "qc-below-quorum", "the QC for the block of view %d in r%d's proposal names only %d replicas (quorum %d)", target.View(), b.Proposer(), named, q)
 		}
 		l.R.Obs("live_qcs_checked", 1)
+	}
+}
+
+type propKey struct {
+	view hotstuff.View
+	from hotstuff.ID
+}
+
+// judgeProposalIdentity (C12 in the live cluster): with no Byzantine replica configured, every replica that receives the
+// proposal of one replica for one view - directly or relayed through the Kauri tree - receives the same block (same hash,
+// i.e. the same bytes-to-sign). (An honest replica proposes at most once per view; with the history-based rotations two
+// replicas may both believe they lead a view, hence the comparison per proposing replica.)
+func (l *Live) judgeProposalIdentity() {
+	if len(l.O.Byz) > 0 {
+		return
+	}
+	for pk, byHash := range l.seenAt {
+		v := pk.view
+		l.R.Obs("live_proposal_views_compared", 1)
+		if len(byHash) > 1 {
+			var desc []string
+			for h, ids := range byHash {
+				desc = append(desc, fmt.Sprintf("%.8x(proposer %d) at %v", h, l.blocks[h].Proposer(), ids))
+			}
+			sort.Strings(desc)
+			l.violate("C12", "proposal-identity", "the proposal of replica %d for view %d reached the replicas as %d different blocks: %v", pk.from, v, len(byHash), desc)
+			return
+		}
 	}
 }
